@@ -154,4 +154,165 @@ theorem svcStepX_inPlace (c : XCtx S) (a : Api) (n : XNet G) (ha : a.armed = fal
       obtain ⟨hc, hs⟩ := hin
       simp [hng', h1, h2, Api.read_of_not_armed ha, hc, hs]
 
+
+/-! ## the retry-style calls -/
+
+theorem unpinned_of_none {n : XNet G} (h : n.stableSel.getD "" = "") : unpinned n = true := by
+  simp [unpinned, h]
+
+/-- `RestoreStableService`: what it touches, what it writes, what its completion means -/
+theorem rs_specX (c : XCtx S) (a : Api) (n : XNet G) (m : Mem) :
+    (restoreStableServiceX c a n m).net.g = n.g ∧
+    (restoreStableServiceX c a n m).net.canarySvc = n.canarySvc ∧
+    (restoreStableServiceX c a n m).net.stableExists = n.stableExists ∧
+    ((restoreStableServiceX c a n m).writes = [] ∨ (restoreStableServiceX c a n m).writes = ["unpinStable"]) ∧
+    (restoreStableServiceX c a n m).panic = false ∧
+    (readFailed a (restoreStableServiceX c a n m).a = true → (restoreStableServiceX c a n m).err = true) ∧
+    ((restoreStableServiceX c a n m).a.armed = true → a.armed = true) ∧
+    ((restoreStableServiceX c a n m).err = false → c.hasRef = true → c.hasRevKey = true →
+      unpinned (restoreStableServiceX c a n m).net = true) ∧
+    (restoreStableServiceX c a n m).mem.restoreGateway = m.restoreGateway ∧
+    (restoreStableServiceX c a n m).mem.removeCanaryService = m.removeCanaryService := by
+  generalize ho : restoreStableServiceX c a n m = o
+  unfold restoreStableServiceX at ho
+  by_cases href : c.hasRef = true
+  · simp only [href, not_true_eq_false, if_false] at ho
+    rcases Api.read_cases a with ⟨hr, har, hr2⟩ | ⟨hr, hr2⟩
+    · rw [show a.read = (a.read.1, a.read.2) from rfl, hr] at ho
+      simp only [if_true, XOut.same] at ho
+      subst ho
+      exact ⟨rfl, rfl, rfl, Or.inl rfl, rfl, fun _ => rfl, (fun h => by rw [hr2] at h; cases h),
+        (fun h => by cases h), rfl, rfl⟩
+    · rw [show a.read = (a.read.1, a.read.2) from rfl, hr] at ho
+      simp only [Bool.false_eq_true, if_false] at ho
+      generalize a.read.2 = a1 at hr2 ho
+      have rf1 : readFailed a a1 = false := by unfold readFailed; rw [hr2]; cases a.armed <;> rfl
+      have mono1 : a1.armed = true → a.armed = true := fun h => by rw [← hr2]; exact h
+      by_cases hex : n.stableExists = true
+      · simp only [hex, not_true_eq_false, if_false] at ho
+        by_cases hmod : (c.hasRevKey && decide (n.stableSel.getD "" ≠ "")) = true
+        · simp only [hmod, if_true] at ho
+          cases hsp : a1.spend with
+          | none =>
+            simp only [hsp, XOut.same] at ho
+            subst ho
+            exact ⟨rfl, rfl, rfl, Or.inl rfl, rfl, fun _ => rfl, mono1, (fun h => by cases h), rfl, rfl⟩
+          | some a2 =>
+            have ha2 := Api.spend_armed hsp
+            simp only [hsp] at ho
+            subst ho
+            refine ⟨rfl, rfl, hex.symm, Or.inr rfl, rfl, ?_, (fun h => mono1 (by rw [← ha2]; exact h)),
+              (fun _ _ _ => unpinned_of_none rfl), rfl, rfl⟩
+            intro h
+            have : readFailed a a2 = false := by unfold readFailed at rf1 ⊢; rw [ha2]; exact rf1
+            rw [this] at h; cases h
+        · simp only [hmod, Bool.false_eq_true, if_false] at ho
+          subst ho
+          refine ⟨rfl, rfl, rfl, Or.inl rfl, rfl, (fun h => by rw [rf1] at h; cases h), mono1, ?_, rfl, rfl⟩
+          intro _ _ hk
+          have : n.stableSel.getD "" = "" := by
+            simp only [hk, Bool.true_and, decide_eq_true_eq, ne_eq, Decidable.not_not] at hmod
+            exact hmod
+          exact unpinned_of_none this
+      · have hex' : n.stableExists = false := by simpa using hex
+        simp only [hex', Bool.false_eq_true, not_false_eq_true, if_true, XOut.same] at ho
+        subst ho
+        exact ⟨rfl, rfl, rfl, Or.inl rfl, rfl, (fun h => by rw [rf1] at h; cases h), mono1,
+          (fun _ _ _ => by simp [unpinned, hex']), rfl, rfl⟩
+  · have href' : c.hasRef = false := by simpa using href
+    simp only [href', Bool.false_eq_true, not_false_eq_true, if_true, XOut.same] at ho
+    subst ho
+    exact ⟨rfl, rfl, rfl, Or.inl rfl, rfl, (fun h => by rw [readFailed_self] at h; cases h), fun h => h,
+      (fun _ h => absurd h href), rfl, rfl⟩
+
+/-- `RemoveCanaryService`: it reads nothing, touches only the canary Service, and its completion means the
+    canary Service is gone (when one is generated at all) -/
+theorem rc_specX (c : XCtx S) (a : Api) (n : XNet G) (m : Mem) :
+    (removeCanaryServiceX c a n m).net.g = n.g ∧
+    (removeCanaryServiceX c a n m).net.stableSel = n.stableSel ∧
+    (removeCanaryServiceX c a n m).net.stableExists = n.stableExists ∧
+    ((removeCanaryServiceX c a n m).writes = [] ∨ (removeCanaryServiceX c a n m).writes = ["deleteCanarySvc"]) ∧
+    (removeCanaryServiceX c a n m).panic = false ∧
+    (removeCanaryServiceX c a n m).a.armed = a.armed ∧
+    ((removeCanaryServiceX c a n m).err = false → c.hasRef = true → c.noGen = false →
+      (removeCanaryServiceX c a n m).net.canarySvc = none) ∧
+    (c.noGen = true → (removeCanaryServiceX c a n m).net.canarySvc = n.canarySvc) := by
+  generalize ho : removeCanaryServiceX c a n m = o
+  unfold removeCanaryServiceX at ho
+  by_cases href : c.hasRef = true
+  · simp only [href, not_true_eq_false, if_false] at ho
+    by_cases hng : c.noGen = true
+    · simp only [hng, if_true, XOut.same] at ho
+      subst ho
+      exact ⟨rfl, rfl, rfl, Or.inl rfl, rfl, rfl, (fun _ _ h => by rw [hng] at h; cases h), fun _ => rfl⟩
+    · have hng' : c.noGen = false := by simpa using hng
+      simp only [hng', Bool.false_eq_true, if_false] at ho
+      cases hcs : n.canarySvc with
+      | none =>
+        simp only [hcs] at ho
+        cases hsp : a.spend with
+        | none =>
+          simp only [hsp, XOut.same] at ho
+          subst ho
+          exact ⟨rfl, rfl, rfl, Or.inl rfl, rfl, rfl, (fun h => by cases h), fun h => absurd h hng⟩
+        | some a1 =>
+          simp only [hsp] at ho
+          subst ho
+          exact ⟨rfl, rfl, rfl, Or.inl rfl, rfl, Api.spend_armed hsp, (fun _ _ _ => hcs), fun h => absurd h hng⟩
+      | some r =>
+        simp only [hcs] at ho
+        cases hsp : a.spend with
+        | none =>
+          simp only [hsp, XOut.same] at ho
+          subst ho
+          exact ⟨rfl, rfl, rfl, Or.inl rfl, rfl, rfl, (fun h => by cases h), fun h => absurd h hng⟩
+        | some a1 =>
+          simp only [hsp] at ho
+          subst ho
+          exact ⟨rfl, rfl, rfl, Or.inr rfl, rfl, Api.spend_armed hsp, (fun _ _ _ => rfl), fun h => absurd h hng⟩
+  · have href' : c.hasRef = false := by simpa using href
+    simp only [href', Bool.false_eq_true, not_false_eq_true, if_true, XOut.same] at ho
+    subst ho
+    exact ⟨rfl, rfl, rfl, Or.inl rfl, rfl, rfl, (fun _ h => absurd h href), fun _ => rfl⟩
+
+/-! ## the phases of the clean-up writes -/
+
+theorem finPhase_provider {w : String} (h : isProviderWrite w = true) : finPhase w = 1 := by
+  unfold finPhase
+  by_cases h1 : w = "unpinStable"
+  · subst h1; revert h; decide
+  · by_cases h2 : w = "deleteCanarySvc"
+    · subst h2; revert h; decide
+    · simp [h1, h2, h]
+
+theorem phasesOrdered_provider (ws tail : List String) (k : Nat) (hk : k ≤ 1) (hn : NamedWrites ws)
+    (ht : tail = [] ∨ tail = ["deleteCanarySvc"]) : phasesOrdered (ws ++ tail) k = true := by
+  induction ws generalizing k with
+  | nil =>
+    rcases ht with rfl | rfl
+    · rfl
+    · simp only [List.nil_append, phasesOrdered, Bool.and_true, Bool.and_eq_true, decide_eq_true_eq]
+      have : finPhase "deleteCanarySvc" = 2 := by decide
+      rw [this]; omega
+  | cons w r ih =>
+    have hw := finPhase_provider (hn w (by simp))
+    simp only [List.cons_append, phasesOrdered, hw, Bool.and_eq_true, decide_eq_true_eq]
+    exact ⟨⟨hk, by omega⟩, ih 1 (Nat.le_refl _) (fun x hx => hn x (by simp [hx]))⟩
+
+/-- un-pin (at most once), then provider writes, then the removal of the canary Service (at most once) -/
+theorem phasesOrdered_fin (w1 w2 w3 : List String) (h1 : w1 = [] ∨ w1 = ["unpinStable"]) (h2 : NamedWrites w2)
+    (h3 : w3 = [] ∨ w3 = ["deleteCanarySvc"]) : phasesOrdered (w1 ++ w2 ++ w3) 0 = true := by
+  rcases h1 with rfl | rfl
+  · simpa using phasesOrdered_provider w2 w3 0 (by omega) h2 h3
+  · have : finPhase "unpinStable" = 0 := by decide
+    simp only [List.cons_append, List.nil_append, phasesOrdered, this, Nat.le_refl, decide_true, Bool.true_and,
+      Nat.zero_le]
+    exact phasesOrdered_provider w2 w3 0 (by omega) h2 h3
+
+theorem not_mem_delete_of_named {ws : List String} (h : NamedWrites ws) : ws.contains "deleteCanarySvc" = false := by
+  cases hc : ws.contains "deleteCanarySvc"
+  · rfl
+  · have := h _ (List.contains_iff_mem.mp hc)
+    revert this; decide
+
 end RV.TrafficX
